@@ -39,12 +39,17 @@ CONSTANTS
     A13Fixed,             \* TRUE: wake pass after a re-lock / update changed the holder's Count (second fix); FALSE: original
     NoDupWait,            \* TRUE: a LockId that already has a live queued request on a key issues no second one
                           \*       (FALSE exhibits finding A12: both are granted, two holder records with one LockId)
+    Roles,                \* {"leader"} or {"leader", "follower"}: node roles the behaviour may pass through (C10)
+    MaxRoleChanges,       \* bound on role changes
+    AofDelay,             \* a hold older than this many seconds at a clock tick is persisted / replicated ("aof")
+    WaitLeader,           \* a non-leader keeps a persisted hold this long past its deadline (300 s in the code; scaled)
+    ReArm,                \* ... re-checking every ReArm seconds (30 s in the code; scaled)
     Turns,                \* {"any"} for exhaustive checking; a set of class tokens to balance random walks
     Lag                   \* TRUE: client requests may arrive while a due timer has not fired yet (sweeper lag)
 
-VARIABLES ks, now, reqs, out, hist, turn
-vars == <<ks, now, reqs, out, hist, turn>>
-view == <<ks, now, [i \in DOMAIN reqs |-> reqs[i].st]>>
+VARIABLES ks, now, reqs, out, hist, turn, role, nrc
+vars == <<ks, now, reqs, out, hist, turn, role, nrc>>
+view == <<ks, now, [i \in DOMAIN reqs |-> reqs[i].st], role, nrc>>
 
 SUCCED == 0   LOCKED_ERROR == 5   UNLOCK_ERROR == 6   UNOWN_ERROR == 7   TIMEOUT == 8   EXPRIED == 9
 
@@ -82,7 +87,8 @@ Reply(rid, res, S, lid) ==
     IN [rid |-> rid, res |-> res, lc |-> Locked(S), lrc |-> IF i = 0 THEN 0 ELSE S.H[i].depth, lid |-> lid, granted |-> FALSE]
 
 NewHolder(r, t) == [lid |-> r.lid, depth |-> 1, cnt |-> r.cnt, rc |-> r.rc, pflag |-> r.pflag,
-                    dl |-> IF r.unl THEN MaxNow + 100 ELSE t + r.ex + 1, rid |-> r.id, start |-> t]
+                    dl |-> IF r.unl THEN MaxNow + 100 ELSE t + r.ex + 1, rid |-> r.id, start |-> t,
+                    aof |-> FALSE, next |-> IF r.unl THEN MaxNow + 100 ELSE t + r.ex + 1]
 
 \* stable insertion used by the priority ring: descending priority, FIFO within a priority
 PrioInsert(W, w) ==
@@ -139,14 +145,16 @@ DoLock(S, r, t) ==
          THEN IF CheckLockedEqual(h, r, t)
               THEN [S |-> S, out |-> <<Reply(r.id, LOCKED_ERROR, S, lidEff)>>]
               ELSE LET S1 == [S EXCEPT !.H[me] = [h EXCEPT !.cnt = r.cnt, !.rc = r.rc, !.pflag = r.pflag, !.rid = r.id,
-                                                            !.dl = IF r.unl THEN MaxNow + 100 ELSE t + r.ex + 1, !.start = t]]
+                                                            !.dl = IF r.unl THEN MaxNow + 100 ELSE t + r.ex + 1, !.start = t,
+                                                            !.next = IF r.unl THEN MaxNow + 100 ELSE t + r.ex + 1]]
                    IN IF A13Fixed THEN WakePass(S1, t, <<Reply(r.id, LOCKED_ERROR, S1, lidEff)>>)
                       ELSE [S |-> S1, out |-> <<Reply(r.id, LOCKED_ERROR, S1, lidEff)>>]
          ELSE IF h.depth < MaxDepth /\ h.depth <= r.rc /\ ~r.pflag
          THEN IF r.ex = 0
               THEN [S |-> S, out |-> <<Reply(r.id, SUCCED, S, lidEff)>>]
               ELSE LET S1 == [S EXCEPT !.H[me] = [h EXCEPT !.depth = @ + 1, !.cnt = r.cnt, !.rc = r.rc, !.rid = r.id,
-                                                            !.dl = IF r.unl THEN MaxNow + 100 ELSE t + r.ex + 1, !.start = t]]
+                                                            !.dl = IF r.unl THEN MaxNow + 100 ELSE t + r.ex + 1, !.start = t,
+                                                            !.next = IF r.unl THEN MaxNow + 100 ELSE t + r.ex + 1]]
                    IN IF A13Fixed THEN WakePass(S1, t, <<Reply(r.id, SUCCED, S1, lidEff)>>)
                       ELSE [S |-> S1, out |-> <<Reply(r.id, SUCCED, S1, lidEff)>>]
          ELSE [S |-> S, out |-> <<Reply(r.id, LOCKED_ERROR, S, lidEff)>>]
@@ -220,7 +228,7 @@ FireExpiryOp(S, i, t) ==
 \* the transition system
 
 DueTimeouts(k) == {i \in LiveIdx(ks[k].W) : ks[k].W[i].tot <= now}
-DueExpiries(k) == {i \in 1..Len(ks[k].H) : ks[k].H[i].dl <= now}
+DueExpiries(k) == {i \in 1..Len(ks[k].H) : ks[k].H[i].next <= now}
 NothingDue == \A k \in Keys : DueTimeouts(k) = {} /\ DueExpiries(k) = {}
 
 ReqRec(id, cmd, k, lid, cnt, rc, to, ex, fl) ==
@@ -247,6 +255,19 @@ Book(R, O, newReq) ==
 
 TurnIs(c) == turn = "any" \/ turn \in c
 
+STATE_ERROR == 10
+
+\* db.go:2011 / 2328 - a node that is not the leader refuses (after the concurrent-check fast path, and an
+\* unlock of a key without a manager is UNLOCK_ERROR before the role is looked at)
+NonLeaderLock(S, r) ==
+    IF r.conc /\ r.to = 0 /\ Locked(S) > r.cnt
+    THEN [S |-> S, out |-> <<Reply(r.id, TIMEOUT, S, 0)>>]
+    ELSE [S |-> S, out |-> << [Reply(r.id, STATE_ERROR, S, r.lid) EXCEPT !.lrc = 0] >>]
+NonLeaderUnlock(S, r) ==
+    IF S.H = <<>> /\ S.W = <<>> /\ ~S.waited
+    THEN [S |-> S, out |-> <<Reply(r.id, UNLOCK_ERROR, S, r.lid)>>]
+    ELSE [S |-> S, out |-> << [Reply(r.id, STATE_ERROR, S, r.lid) EXCEPT !.lrc = 0] >>]
+
 LockReq(k, lid, cnt, rc, to, ex, fl) ==
     /\ Len(reqs) < MaxReq
     /\ TurnIs({"lock", "lock2", "lock3"}) \/ now = MaxNow
@@ -254,11 +275,11 @@ LockReq(k, lid, cnt, rc, to, ex, fl) ==
     /\ NoDupWait => \A i \in LiveIdx(ks[k].W) : ks[k].W[i].lid # lid
     /\ LET id == Len(reqs) + 1
            r  == ReqRec(id, "L", k, lid, cnt, rc, to, ex, fl)
-           res == DoLock(ks[k], r, now)
+           res == IF role = "leader" THEN DoLock(ks[k], r, now) ELSE NonLeaderLock(ks[k], r)
        IN /\ Apply(k, res, r)
           /\ reqs' = Book(reqs, res.out, <<r>>)
           /\ hist' = Append(hist, [op |-> "lock", key |-> k, lid |-> lid, cnt |-> cnt, rc |-> rc, to |-> to, ex |-> ex, fl |-> fl])
-    /\ UNCHANGED now
+    /\ UNCHANGED <<now, role, nrc>>
 
 UnlockReq(k, lid, rc, fl) ==
     /\ Len(reqs) < MaxReq
@@ -266,23 +287,28 @@ UnlockReq(k, lid, rc, fl) ==
     /\ Lag \/ NothingDue
     /\ LET id == Len(reqs) + 1
            r  == ReqRec(id, "U", k, lid, 0, rc, 0, 0, fl)
-           res == DoUnlock(ks[k], r, now)
+           res == IF role = "leader" THEN DoUnlock(ks[k], r, now) ELSE NonLeaderUnlock(ks[k], r)
        IN /\ Apply(k, res, r)
           /\ reqs' = Book(reqs, res.out, <<r>>)
           /\ hist' = Append(hist, [op |-> "unlock", key |-> k, lid |-> lid, cnt |-> 0, rc |-> rc, to |-> 0, ex |-> 0, fl |-> fl])
-    /\ UNCHANGED now
+    /\ UNCHANGED <<now, role, nrc>>
 
 FireTimeout(k, i) ==
     /\ i \in DueTimeouts(k)
     /\ LET res == FireTimeoutOp(ks[k], i, now) IN
           /\ ks' = [ks EXCEPT ![k] = res.S] /\ out' = res.out /\ reqs' = Book(reqs, res.out, <<>>)
-    /\ UNCHANGED <<now, hist>>
+    /\ UNCHANGED <<now, hist, role, nrc>>
 
+\* doExpried (db.go:1858): a non-leader re-arms a persisted hold until WaitLeader seconds past its deadline
 FireExpiry(k, i) ==
     /\ i \in DueExpiries(k)
-    /\ LET res == FireExpiryOp(ks[k], i, now) IN
-          /\ ks' = [ks EXCEPT ![k] = res.S] /\ out' = res.out /\ reqs' = Book(reqs, res.out, <<>>)
-    /\ UNCHANGED <<now, hist>>
+    /\ LET h == ks[k].H[i] IN
+       IF role # "leader" /\ h.aof /\ now - h.dl < WaitLeader
+       THEN /\ ks' = [ks EXCEPT ![k].H[i].next = now + ReArm]
+            /\ out' = <<>> /\ UNCHANGED reqs
+       ELSE LET res == FireExpiryOp(ks[k], i, now) IN
+            /\ ks' = [ks EXCEPT ![k] = res.S] /\ out' = res.out /\ reqs' = Book(reqs, res.out, <<>>)
+    /\ UNCHANGED <<now, hist, role, nrc>>
 
 Tick ==
     /\ now < MaxNow
@@ -291,9 +317,20 @@ Tick ==
     /\ now' = now + 1
     /\ out' = <<>>
     /\ hist' = Append(hist, [op |-> "tick", key |-> 0, lid |-> 0, cnt |-> 0, rc |-> 0, to |-> 0, ex |-> 0, fl |-> ""])
-    /\ UNCHANGED <<ks, reqs>>
+    \* holds older than the persistence delay are pushed to the log at their wheel visit (leader only)
+    /\ ks' = [k \in Keys |-> [ks[k] EXCEPT !.H = [j \in 1..Len(ks[k].H) |->
+                 [ks[k].H[j] EXCEPT !.aof = @ \/ (role = "leader" /\ now + 1 - ks[k].H[j].start >= AofDelay)]]]]
+    /\ UNCHANGED <<reqs, role, nrc>>
 
-Init == /\ ks = [k \in Keys |-> EmptyKey] /\ now = 0 /\ reqs = <<>> /\ out = <<>> /\ hist = <<>> /\ turn \in Turns
+RoleChange(r) ==
+    /\ r \in Roles \ {role}
+    /\ nrc < MaxRoleChanges
+    /\ role' = r /\ nrc' = nrc + 1
+    /\ out' = <<>>
+    /\ hist' = Append(hist, [op |-> "role", key |-> 0, lid |-> 0, cnt |-> 0, rc |-> 0, to |-> 0, ex |-> 0, fl |-> r])
+    /\ UNCHANGED <<ks, now, reqs>>
+
+Init == /\ ks = [k \in Keys |-> EmptyKey] /\ now = 0 /\ reqs = <<>> /\ out = <<>> /\ hist = <<>> /\ turn \in Turns /\ role = "leader" /\ nrc = 0
 
 Step ==
     \/ \E k \in Keys, lid \in Lids, cnt \in Counts, rc \in Rcounts, to \in Timeouts, ex \in Expireds, fl \in LockFlags \cup {""} :
@@ -302,6 +339,7 @@ Step ==
     \/ \E k \in Keys : \E i \in DueTimeouts(k) : FireTimeout(k, i)
     \/ \E k \in Keys : \E i \in DueExpiries(k) : FireExpiry(k, i)
     \/ Tick
+    \/ \E r \in Roles : RoleChange(r)
 
 Next == Step /\ turn' \in Turns
 
@@ -381,7 +419,19 @@ NoEarlyTimeout ==
         (out'[j].res = TIMEOUT /\ out'[j].rid <= Len(reqs) /\ reqs[out'[j].rid].st = "queued")
             => now - reqs[out'[j].rid].t >= reqs[out'[j].rid].to
 
-ActionProps == [][GrantOK /\ RefusedUnlockChangesNothing /\ NoEarlyTimeout]_vars
+\* C10: a client request reaching a non-leader changes nothing and is refused
+NonLeaderDecidesNothing ==
+    (role # "leader" /\ Len(reqs') > Len(reqs)) =>
+        /\ ks' = ks
+        /\ \A j \in 1..Len(out') : out'[j].res \in {STATE_ERROR, UNLOCK_ERROR, TIMEOUT}
+\* C10: a non-leader does not end a persisted hold before WaitLeader seconds past its deadline
+NoEarlyFollowerExpiry ==
+    \A k \in Keys : \A i \in 1..Len(ks[k].H) :
+        (role # "leader" /\ role' = role /\ ks[k].H[i].aof /\ now - ks[k].H[i].dl < WaitLeader /\ now' = now
+           /\ Len(reqs') = Len(reqs))
+            => \E j \in 1..Len(ks'[k].H) : ks'[k].H[j].lid = ks[k].H[i].lid
+
+ActionProps == [][GrantOK /\ RefusedUnlockChangesNothing /\ NoEarlyTimeout /\ NonLeaderDecidesNothing /\ NoEarlyFollowerExpiry]_vars
 
 -----------------------------------------------------------------------------
 \* behaviour export for engine S (simulation mode): print the driver steps once the request budget is used up
